@@ -667,8 +667,10 @@ ws_write_cb(void *arg)
 				frame->aio = NULL;
 				nni_aio_list_remove(aio);
 				nni_aio_finish_error(aio, NNG_ECLOSED);
-				ws_frame_fini(frame);
 			}
+			// Control frames (PONG) have no aio, but they
+			// are ours to release all the same.
+			ws_frame_fini(frame);
 		}
 		if (ws->peer_closed) {
 			if (ws->wclose) { // could assert this?
